@@ -84,9 +84,9 @@ _STORE_COMPONENTS = {
 CHECKS["C01"] = {
     "machine": "store",
     "runs": {"quick": 60_000, "thorough": 1_500_000},
-    "chunk": {"quick": 500, "thorough": 2_000},
+    "chunk": {"quick": 500, "thorough": 500},
     "budget_s": {"quick": 80, "thorough": 900},
-    "run_timeout": {"quick": 40, "thorough": 120},
+    "run_timeout": {"quick": 40, "thorough": 300},
     "manifest": {
         "text": "Partial. Decided for every text a faulty storage stack can hand the parser: valid files (foreign tool and the library's own writer) "
                 "damaged by torn / lost / duplicated / misdirected writes, bit rot, interleaved writers, garbage inserts, plus a fault-free "
@@ -115,9 +115,9 @@ CHECKS["C01"] = {
 CHECKS["C03"] = {
     "machine": "store",
     "runs": {"quick": 60_000, "thorough": 1_500_000},
-    "chunk": {"quick": 500, "thorough": 2_000},
+    "chunk": {"quick": 500, "thorough": 500},
     "budget_s": {"quick": 80, "thorough": 900},
-    "run_timeout": {"quick": 40, "thorough": 120},
+    "run_timeout": {"quick": 40, "thorough": 300},
     "manifest": {
         "text": "Partial. Same storage-fault and size-swarm runs as C01, judged by a conservation oracle over (text handed to parse_string, blocks): "
                 "raws found left-to-right (greedy first occurrence is exact for this oracle), gaps whitespace-only, no overlap, nothing after the last raw; "
@@ -141,7 +141,7 @@ CHECKS["C03"] = {
 CHECKS["C04"] = {
     "machine": "store",
     "runs": {"quick": 150_000, "thorough": 1_500_000},
-    "chunk": {"quick": 500, "thorough": 2_000},
+    "chunk": {"quick": 500, "thorough": 500},
     "budget_s": {"quick": 80, "thorough": 900},
     "run_timeout": {"quick": 90, "thorough": 900},
     "manifest": {
@@ -168,7 +168,7 @@ CHECKS["C04"] = {
 CHECKS["C05"] = {
     "machine": "store",
     "runs": {"quick": 120_000, "thorough": 1_000_000},
-    "chunk": {"quick": 500, "thorough": 2_000},
+    "chunk": {"quick": 500, "thorough": 500},
     "budget_s": {"quick": 80, "thorough": 900},
     "run_timeout": {"quick": 90, "thorough": 900},
     "manifest": {
@@ -222,7 +222,7 @@ CHECKS["C07"] = {
 CHECKS["C20"] = {
     "machine": "io",
     "runs": {"quick": 60_000, "thorough": 1_500_000},
-    "chunk": {"quick": 500, "thorough": 2_000},
+    "chunk": {"quick": 500, "thorough": 500},
     "budget_s": {"quick": 80, "thorough": 900},
     "run_timeout": {"quick": 90, "thorough": 900},
     "manifest": {
